@@ -21,6 +21,9 @@ RULE = ('programs from the stratified / control-body (cut, if-then-else, negatio
         'and the query has an answer; distinct = hash of (program, query, subset, styles)')
 ASSUMPTIONS = ['reference interpreters A and B agree', 'only predicates all of whose clauses are facts are replaced',
                'call traces are compared on the common prefix when the enumeration is capped at 60 answers']
+RULE_ADDED = (' Added after the rounds of independently written changes (DESIGN.md 12.2): ' +
+              'every predicate registered again (the new closures must be called); builtin exception types; yield values True / False / None / 0 / 1; callables of every kind (decorated, partial, method, callable object ...) for inferred arity; Python predicates that delegate to a query on the same engine.')
+RULE = RULE + RULE_ADDED
 
 
 class Boom(Exception):
